@@ -30,8 +30,8 @@ Section C13.
     properties2d w p depth ps t = Err Throw \/ exists out t', properties2d w p depth ps t = Ok (out, t').
   Proof.
     intros w p depth ps t WO. unfold properties2d. destruct (w_cross w) as [cs|]; [|left; reflexivity].
-    unfold properties3d.
-    destruct (init_from w (q_g (mk_query w (map2d w cs p) depth)) depth ps []) as [out0 regs].
+    unfold properties3d, properties_at. cbn [mk_query q_depth q_g].
+    destruct (init_from w (w_gravity w) depth ps []) as [out0 regs].
     match goal with |- context [if ?c then _ else _] => destruct c end; [left; reflexivity|].
     destruct (fold_left _ _ _) as [r t']. right. eexists. eexists. reflexivity.
   Qed.
